@@ -55,12 +55,16 @@ def expand_task(t):
     factory = _get_factory(fname)
     results = []
     s = None
+    snap = None
     hits = {}
     try:
         for op in ops:
             try:
                 if s is None:
                     s = _fresh(factory, params, history, base_key)
+                    snap = s.snapshot() if hasattr(s, 'snapshot') else None
+                elif snap is not None:
+                    s.restore(snap)
                 vs = s.apply(op)
                 k = s.key()
             except HarnessDied as e:
